@@ -70,6 +70,18 @@ def hotfix_spec(depth):
                 continue_after_admin=True)
 
 
+def recreate_spec(layout, names, depth):
+    """Delete development branches, then ask for them again (archived
+    versions must be refused) - admin jobs are not terminal here."""
+    jobs = []
+    for n in names:
+        jobs += [['delete_branch', n], ['create_branch', n]]
+    s = spec('c20-noq-%s-recreate' % layout, layout, names[0], names[0],
+             False, depth, admin_jobs=jobs, continue_after_admin=True)
+    s['init'] = []
+    return s
+
+
 def specs(tier):
     if tier == 'quick':
         return [spec('c20-q-D3', 'D3', 'development/4.3', 'development/5.1',
@@ -78,7 +90,9 @@ def specs(tier):
                      'development/4.3', False, 1),
                 spec('c20-q-H3', 'H3', 'hotfix/4.2.17', 'development/4.3',
                      True, 3),
-                hotfix_spec(6)]
+                hotfix_spec(6),
+                recreate_spec('D3', ['development/10.0', 'development/4.3'],
+                              4)]
     return [spec('c20-q-D3', 'D3', 'development/4.3', 'development/5.1',
                  True, 5),
             spec('c20-noq-D3', 'D3', 'development/4.3', 'development/5.1',
@@ -91,7 +105,11 @@ def specs(tier):
                  5),
             spec('c20-noq-H3', 'H3', 'hotfix/4.2.17', 'development/4.3',
                  False, 3),
-            hotfix_spec(8)]
+            hotfix_spec(8),
+            recreate_spec('D3', ['development/10.0', 'development/4.3',
+                                 'development/5.1'], 6),
+            recreate_spec('S3', ['development/5.1', 'stabilization/4.3.18',
+                                 'development/4.3'], 6)]
 
 
 def run(tier, seed, workers=None):
